@@ -64,10 +64,10 @@ def obligations(tier):
             obs.append({'h': 'twice', 'disp': disp, 'frag': frag, 'vk': vk, 'passing': passing})
         # a view with two validated methods (different schemas, one validator), called in sequence
         for (f1, f2), vks, seq, passing, ctx in it.product((('integer', 'string'), ('enum', 'integer')), (('int', 'int'), ('str', 'int'), ('int', 'str'), ('int', 'int', 'str')),
-                                                           (('m1', 'm2'), ('m2', 'm1'), ('m1', 'm2', 'm1')), ('pos', 'named'), (0, 1)):
+                                                           (('m1', 'm2'), ('m2', 'm1'), ('m1', 'm2', 'm1')), ('pos', 'named'), (0, 1, 2)):
             if len(vks) != len(seq):
                 continue
-            if tier == 'quick' and ctx and passing == 'pos':
+            if tier == 'quick' and ctx == 1 and passing == 'pos':
                 continue
             obs.append({'h': 'view2', 'disp': disp, 'f1': f1, 'f2': f2, 'vk': list(vks), 'seq': list(seq), 'passing': passing, 'ctx': ctx})
         # positional-only signatures, and an excluded parameter in the middle of the signature (both kinds of parameters)
@@ -335,12 +335,13 @@ def h_view2(ob):
               'S1': {'type': 'object', 'properties': {'a': _fragment(ob['f1'])}, 'required': ['a']},
               'S2': {'type': 'object', 'properties': {'a': _fragment(ob['f2'])}, 'required': ['a']}}
         kw = 'async def' if is_async else 'def'
-        exec(f"class V(ViewMixin):\n    def __init__(self, ctx=None):\n        self.ctx = ctx\n"
+        cname = 'a' if ob['ctx'] == 2 else 'ctx'       # ctx == 2: the view's context is NAMED LIKE the methods' parameter
+        exec(f"class V(ViewMixin):\n    def __init__(self, {cname}=None):\n        self.ctx = {cname}\n"
              f"    @validator.validate(schema=S1)\n    {kw} m1(self, a):\n        log.append(['m1', a])\n        return ['m1', a]\n"
              f"    @validator.validate(schema=S2)\n    {kw} m2(self, a):\n        log.append(['m2', a])\n        return ['m2', a]\n", ns)
         wire = Wire(env)
         d = (pjrpc.server.AsyncDispatcher if is_async else pjrpc.server.Dispatcher)(**wire.kwargs())
-        d.registry.view(ns['V'], context='ctx' if ob['ctx'] else None)
+        d.registry.view(ns['V'], context=cname if ob['ctx'] else None)
         seq = ob['seq']
         outs, wants = [], []
         for i, m in enumerate(seq):
